@@ -593,3 +593,28 @@ func LibThreads() []string {
 	sort.Strings(out)
 	return out
 }
+
+// Client is an additional manager (a separate client connection per node).
+type Client struct {
+	Mgr *dev.Manager
+	Cfg *dev.Configuration
+}
+
+// NewClient creates another manager with a configuration of all endpoints.
+func (w *W) NewClient() *Client {
+	nodeMap := map[string]uint32{}
+	for i := 1; i <= w.O.N; i++ {
+		nodeMap[Addr(i)] = uint32(i)
+	}
+	var mopts []gorums.ManagerOption
+	if w.O.SendBuffer > 0 {
+		mopts = append(mopts, gorums.WithSendBufferSize(w.O.SendBuffer))
+	}
+	mopts = append(mopts, gorums.WithBackoff(backoff.Config{BaseDelay: BackoffBase, Multiplier: 2, Jitter: 0, MaxDelay: 8 * BackoffBase}))
+	m := dev.NewManager(mopts...)
+	cfg, err := m.NewConfiguration(w.Spec, gorums.WithNodeMap(nodeMap))
+	if err != nil {
+		mc.Fail("setup", "NewClient: %v", err)
+	}
+	return &Client{Mgr: m, Cfg: cfg}
+}
